@@ -5,6 +5,8 @@ import (
 	"go/constant"
 	"go/token"
 	"go/types"
+	"reflect"
+	"sort"
 	"strings"
 
 	"golang.org/x/tools/go/ssa"
@@ -38,19 +40,110 @@ func CalleeKey(c *ssa.CallCommon) string {
 	return ""
 }
 
-// Call describes a call-like instruction (call, go, defer).
+// Call describes a call-like instruction (call, go, defer).  A call through a
+// local function value that can only be one of a known set of functions
+// (`f := p.withTitle; if found { f = plain }; f(x)`) is described once per
+// function of the set, as if it were a static call of it.
 type Call struct {
 	Instr  ssa.CallInstruction
 	Common *ssa.CallCommon
 	Key    string
 	Fn     *ssa.Function // enclosing function
+	// Target is the function called when the call goes through a function
+	// value (nil for static and interface calls); Recv is the receiver bound
+	// to it when it is a method value.
+	Target *ssa.Function
+	Recv   ssa.Value
+}
+
+// CallTarget is one function a call through a function value can reach.
+type CallTarget struct {
+	Fn   *ssa.Function
+	Recv ssa.Value // bound receiver of a method value, else nil
+}
+
+// CallTargets resolves a call through a function value to the functions it can
+// reach: every alternative of the value (through phis and cells) must be a
+// function, a function literal or a method value.  It returns nil for static
+// and interface calls and when some alternative is not resolved.
+func CallTargets(cc *ssa.CallCommon) (out []CallTarget) {
+	if cc == nil || cc.IsInvoke() || cc.StaticCallee() != nil {
+		return nil
+	}
+	if _, isBuiltin := cc.Value.(*ssa.Builtin); isBuiltin {
+		return nil
+	}
+	for _, leaf := range FlattenPhi(cc.Value) {
+		fn, bound := FnValue(leaf)
+		if fn == nil {
+			return nil
+		}
+		if strings.HasPrefix(fn.Synthetic, "bound method wrapper") && len(bound) == 1 {
+			var m *ssa.Function
+			for _, b := range fn.Blocks {
+				for _, in := range b.Instrs {
+					if ci, ok := in.(ssa.CallInstruction); ok && ci.Common().StaticCallee() != nil {
+						m = ci.Common().StaticCallee()
+					}
+				}
+			}
+			if m == nil {
+				return nil
+			}
+			out = append(out, CallTarget{Fn: m, Recv: bound[0]})
+			continue
+		}
+		out = append(out, CallTarget{Fn: fn})
+	}
+	return out
+}
+
+func keyOfFn(fn *ssa.Function) string {
+	if o := fn.Origin(); o != nil {
+		return FuncKey(o)
+	}
+	return FuncKey(fn)
+}
+
+// CalleeKeys is CalleeKey for every function the call can reach (see
+// CallTargets); a single element for static and interface calls.
+func CalleeKeys(c *ssa.CallCommon) []string {
+	if k := CalleeKey(c); k != "" {
+		return []string{k}
+	}
+	var out []string
+	for _, t := range CallTargets(c) {
+		out = append(out, keyOfFn(t.Fn))
+	}
+	return out
+}
+
+// calleeIn reports whether the call reaches only functions of set (and at least one).
+func calleeIn(c *ssa.CallCommon, set map[string]bool) bool {
+	ks := CalleeKeys(c)
+	for _, k := range ks {
+		if !set[k] {
+			return false
+		}
+	}
+	return len(ks) > 0
 }
 
 // Calls lists all call-like instructions of fn.
-func Calls(fn *ssa.Function) (cs []Call) {
+func Calls(fn *ssa.Function) (cs []Call) { return callsOf(fn) }
+
+func callsOf(fn *ssa.Function) (cs []Call) {
 	for _, b := range fn.Blocks {
 		for _, in := range b.Instrs {
 			if ci, ok := in.(ssa.CallInstruction); ok {
+				if k := CalleeKey(ci.Common()); k == "" {
+					if ts := CallTargets(ci.Common()); len(ts) > 0 {
+						for _, t := range ts {
+							cs = append(cs, Call{Instr: ci, Common: ci.Common(), Key: keyOfFn(t.Fn), Fn: fn, Target: t.Fn, Recv: t.Recv})
+						}
+						continue
+					}
+				}
 				cs = append(cs, Call{Instr: ci, Common: ci.Common(), Key: CalleeKey(ci.Common()), Fn: fn})
 			}
 		}
@@ -71,10 +164,94 @@ func CallsTo(fn *ssa.Function, keys ...string) (cs []Call) {
 	return cs
 }
 
+// CallsToDeep is CallsTo over fn, its function literals and the functions of
+// its package it calls statically (to depth 2): "fn does this, itself or
+// through a helper".  Calls found in fn itself come first.
+func CallsToDeep(fn *ssa.Function, keys ...string) (cs []Call) {
+	seen := map[*ssa.Function]bool{}
+	seenCall := map[Call]bool{}
+	var visit func(f *ssa.Function, d int)
+	visit = func(f *ssa.Function, d int) {
+		if f == nil || seen[f] || len(f.Blocks) == 0 {
+			return
+		}
+		seen[f] = true
+		for _, c := range CallsTo(f, keys...) {
+			if !seenCall[c] {
+				seenCall[c] = true
+				cs = append(cs, c)
+			}
+		}
+		for _, a := range f.AnonFuncs {
+			visit(a, d)
+		}
+		if d <= 0 {
+			return
+		}
+		for _, c := range Calls(f) {
+			h := Impl(c.Common.StaticCallee())
+			if h != nil && InModule(h) && (h.Pkg == fn.Pkg || Transparent(h)) {
+				visit(h, d-1)
+			}
+		}
+	}
+	visit(fn, 2)
+	return cs
+}
+
+// InRoot resolves a value found in a helper of root to the values it stands
+// for in root: a parameter of an unexported helper is replaced by what every
+// static call site passes for it, repeatedly, until the values belong to root
+// (or are constants or globals).  ok is false when some value is computed
+// inside a helper, or a call site lies outside root's helpers.
+func InRoot(v ssa.Value, root *ssa.Function) (vals []ssa.Value, ok bool) {
+	ok = true
+	seen := map[ssa.Value]bool{}
+	var walk func(x ssa.Value, d int)
+	walk = func(x ssa.Value, d int) {
+		if seen[x] {
+			return
+		}
+		seen[x] = true
+		switch y := x.(type) {
+		case *ssa.Const, *ssa.Global, *ssa.Function:
+			vals = append(vals, x)
+			return
+		case *ssa.Parameter:
+			if y.Parent() == root {
+				vals = append(vals, x)
+				return
+			}
+			args := ArgsOfParam(y)
+			if len(args) == 0 || d > 3 {
+				ok = false
+				return
+			}
+			for _, a := range args {
+				walk(a, d+1)
+			}
+			return
+		}
+		if in, isIn := x.(ssa.Instruction); isIn && in.Parent() == root {
+			vals = append(vals, x)
+			return
+		}
+		ok = false
+	}
+	walk(v, 0)
+	return vals, ok && len(vals) > 0
+}
+
 // Arg returns the i-th argument of the call counting the receiver of a
 // static method call as argument 0 (as SSA does) — for invoke calls the
 // receiver is c.Value and Args are the remaining ones.
 func (c Call) Arg(i int) ssa.Value {
+	if c.Recv != nil {
+		if i == 0 {
+			return c.Recv
+		}
+		i--
+	}
 	if i < len(c.Common.Args) {
 		return c.Common.Args[i]
 	}
@@ -277,8 +454,46 @@ type Edge struct {
 // evaluates to passWhenAtomTrue.  The returned set contains the passing
 // edges; n is the number of matching branch instructions.
 func CondEdges(fn *ssa.Function, match func(a Atom) (bool, bool)) (edges map[Edge]bool, n int) {
-	return condEdges(fn, match, 2)
+	edges, n = condEdges(fn, match, 2)
+	if edges == nil {
+		edges = map[Edge]bool{}
+	}
+	// Guards inside the function literals of fn count as guards of fn (n), and
+	// UnguardedSinks finds them again through guardMatch when it meets a sink
+	// inside a literal; their edges are not part of the returned set, which
+	// stays a set of edges of fn's own CFG.
+	var lits func(f *ssa.Function)
+	lits = func(f *ssa.Function) {
+		for _, a := range f.AnonFuncs {
+			_, na := condEdges(a, match, 2)
+			n += na
+			lits(a)
+		}
+	}
+	lits(fn)
+	// calls that act as the guard (see AssertCall)
+	assert := AssertCall(match)
+	for _, b := range fn.Blocks {
+		for _, in := range b.Instrs {
+			if assert(in) {
+				n++
+			}
+		}
+	}
+	guardMatch[reflect.ValueOf(edges).Pointer()] = match
+	return edges, n
 }
+
+// LiftPredicate reports whether the boolean value v (the result of a helper of
+// the package, or of slices.ContainsFunc over a function literal) can be true
+// only when the matched guard was passed.
+func LiftPredicate(v ssa.Value, match func(a Atom) (bool, bool)) bool {
+	m, whenTrue := liftPredicate(ResolveCellLoad(v), match, 2)
+	return m && whenTrue
+}
+
+// guardMatch remembers the matcher a guard set was computed with.
+var guardMatch = map[uintptr]func(a Atom) (bool, bool){}
 
 // liftPredicate handles a branch on the boolean result of a helper of the
 // same package ("extract condition into a predicate function"): when, inside
@@ -317,7 +532,12 @@ func liftResult(cond ssa.Value, match func(a Atom) (bool, bool), depth int, nilM
 		return false, false
 	}
 	h := Impl(call.Call.StaticCallee())
-	if h == nil || h.Blocks == nil || !InModule(h) || h.Pkg != call.Parent().Pkg {
+	if k := CalleeKey(call.Common()); (k == "slices.ContainsFunc" || strings.HasPrefix(k, "slices.ContainsFunc[")) && len(call.Call.Args) == 2 && !nilMode {
+		// slices.ContainsFunc(s, f) is true only if f returned true for an element: lift through f
+		h, _ = FnValue(call.Call.Args[1])
+		idx = -1
+	}
+	if h == nil || h.Blocks == nil || !InModule(h) || (h.Pkg != call.Parent().Pkg && !Transparent(h)) {
 		return false, false
 	}
 	g, n := condEdges(h, match, depth-1)
@@ -537,6 +757,55 @@ type Query struct {
 	Target     func(ssa.Instruction) bool
 	Avoid      func(ssa.Instruction) bool
 	AvoidEdges map[Edge]bool
+	// Shallow turns off the lifting of Avoid through helpers (see LiftAvoid).
+	Shallow bool
+}
+
+// LiftAvoid extends an instruction predicate through helpers: the result also
+// holds for a plain static call of a function of the module in which every
+// path from the entry to a return passes an instruction satisfying the
+// (lifted, to depth-1) predicate.  Passing such a call is passing the
+// instruction; this is what keeps a must-pass-through rule quiet when the
+// effect is moved into an extracted function.  Like the predicates themselves
+// it does not identify objects across the call.
+func LiftAvoid(pred func(ssa.Instruction) bool, depth int) func(ssa.Instruction) bool {
+	if pred == nil || depth <= 0 {
+		return pred
+	}
+	memo := map[*ssa.Function]bool{}
+	var inner func(ssa.Instruction) bool
+	return func(in ssa.Instruction) bool {
+		if pred(in) {
+			return true
+		}
+		call, ok := in.(*ssa.Call)
+		if !ok {
+			return false
+		}
+		h := Impl(call.Common().StaticCallee())
+		if h == nil || len(h.Blocks) == 0 || !InModule(h) || h == in.Parent() {
+			return false
+		}
+		if r, ok := memo[h]; ok {
+			return r
+		}
+		memo[h] = false
+		if inner == nil {
+			inner = LiftAvoid(pred, depth-1)
+		}
+		hasRet := false
+		for _, b := range h.Blocks {
+			if len(b.Instrs) > 0 && IsReturn(b.Instrs[len(b.Instrs)-1]) {
+				hasRet = true
+			}
+		}
+		if !hasRet {
+			return false
+		}
+		found, _, _ := Reach(Query{From: []Point{Entry(h)}, Target: IsReturn, Avoid: inner, Shallow: true})
+		memo[h] = !found
+		return !found
+	}
 }
 
 // Reach answers the query; when a path exists it returns the block trace and
@@ -557,6 +826,9 @@ func Reach(q Query) (found bool, trace []*ssa.BasicBlock, hit ssa.Instruction) {
 		b    *ssa.BasicBlock
 		from int
 		dec  string
+	}
+	if q.Avoid != nil && !q.Shallow {
+		q.Avoid = LiftAvoid(q.Avoid, 2)
 	}
 	visited := map[key]bool{}
 	parent := map[key]key{}
@@ -728,9 +1000,9 @@ func IsCallTo(includeDefer bool, keys ...string) func(ssa.Instruction) bool {
 	return func(in ssa.Instruction) bool {
 		switch x := in.(type) {
 		case *ssa.Call:
-			return set[CalleeKey(x.Common())]
+			return calleeIn(x.Common(), set)
 		case *ssa.Defer:
-			return includeDefer && set[CalleeKey(x.Common())]
+			return includeDefer && calleeIn(x.Common(), set)
 		}
 		return false
 	}
@@ -765,10 +1037,129 @@ type Offender struct {
 }
 
 // UnguardedSinks returns sinks reachable from the function entry without
-// passing any edge of guards.
+// passing any edge of guards.  A sink inside a function literal of fn counts as
+// a sink of fn located where the literal is used (called or handed to a call),
+// or where it is created when it escapes in another way.
 func UnguardedSinks(fn *ssa.Function, sink func(ssa.Instruction) bool, guards map[Edge]bool) (off []Offender, nSinks int) {
+	if DeepSinks {
+		if match := guardMatch[reflect.ValueOf(guards).Pointer()]; match != nil {
+			off, _, nSinks = guardedDeep(fn, match, sink, 2, guards, true)
+			return off, nSinks
+		}
+	}
+	return unguardedSinks(fn, sink, guards, true)
+}
+
+// UnguardedSinksLocal is UnguardedSinks restricted to fn and its function
+// literals, for sink predicates that mean "this effect in this function" (the
+// same kind of instruction in a callee is a different effect).
+func UnguardedSinksLocal(fn *ssa.Function, sink func(ssa.Instruction) bool, guards map[Edge]bool) (off []Offender, nSinks int) {
+	return unguardedSinks(fn, sink, guards, true)
+}
+
+// DeepSinks makes UnguardedSinks look for sinks in the helpers of fn as well
+// (see GuardedDeep) whenever the guard set comes from CondEdges.
+var DeepSinks = true
+
+// ClosureUsePoints returns the instructions of the enclosing function at which
+// the function literal made by mc can start running: the calls it is the callee
+// or an argument of; the creation point itself when it escapes otherwise.
+func ClosureUsePoints(mc *ssa.MakeClosure) (pts []ssa.Instruction) {
+	refs := mc.Referrers()
+	if refs == nil {
+		return []ssa.Instruction{mc}
+	}
+	for _, u := range *refs {
+		switch u := u.(type) {
+		case *ssa.DebugRef:
+		case ssa.CallInstruction:
+			pts = append(pts, u)
+		default:
+			return []ssa.Instruction{mc}
+		}
+	}
+	if len(pts) == 0 {
+		return []ssa.Instruction{mc}
+	}
+	return pts
+}
+
+// closuresOf maps every function literal nested in fn (at any depth) to the
+// MakeClosure instructions of fn through which it comes to exist.
+func closuresOf(fn *ssa.Function) map[*ssa.Function][]*ssa.MakeClosure {
+	out := map[*ssa.Function][]*ssa.MakeClosure{}
+	for _, b := range fn.Blocks {
+		for _, in := range b.Instrs {
+			mc, ok := in.(*ssa.MakeClosure)
+			if !ok {
+				continue
+			}
+			a, _ := mc.Fn.(*ssa.Function)
+			if a == nil {
+				continue
+			}
+			var add func(x *ssa.Function)
+			add = func(x *ssa.Function) {
+				out[x] = append(out[x], mc)
+				for _, y := range x.AnonFuncs {
+					add(y)
+				}
+			}
+			add(a)
+		}
+	}
+	return out
+}
+
+// AssertCall returns a predicate for the calls that act as a guard: static
+// calls of a function of the module that returns normally only through edges
+// passing the matched guard (it panics, or never returns, otherwise):
+// `mustBeClean(p)`.  Passing such a call is passing the guard.
+func AssertCall(match func(a Atom) (bool, bool)) func(ssa.Instruction) bool {
+	if match == nil {
+		return nil
+	}
+	memo := map[*ssa.Function]bool{}
+	return func(in ssa.Instruction) bool {
+		call, ok := in.(*ssa.Call)
+		if !ok {
+			return false
+		}
+		h := Impl(call.Common().StaticCallee())
+		if h == nil || len(h.Blocks) == 0 || !InModule(h) || h == in.Parent() {
+			return false
+		}
+		if h.Signature.Results().Len() > 0 && !Transparent(h) {
+			return false // an assertion returns nothing
+		}
+		if r, ok := memo[h]; ok {
+			return r
+		}
+		memo[h] = false
+		g, n := condEdges(h, match, 1)
+		if n == 0 {
+			return false
+		}
+		found, _, _ := Reach(Query{From: []Point{Entry(h)}, Target: IsReturn, AvoidEdges: g, Shallow: true})
+		memo[h] = !found
+		return !found
+	}
+}
+
+func unguardedSinks(fn *ssa.Function, sink func(ssa.Instruction) bool, guards map[Edge]bool, anon bool) (off []Offender, nSinks int) {
 	if len(fn.Blocks) == 0 {
 		return nil, 0
+	}
+	assert := AssertCall(guardMatch[reflect.ValueOf(guards).Pointer()])
+	reachable := func(target ssa.Instruction) (bool, []*ssa.BasicBlock) {
+		found, tr, _ := Reach(Query{
+			From:       []Point{Entry(fn)},
+			Target:     func(x ssa.Instruction) bool { return x == target },
+			AvoidEdges: guards,
+			Avoid:      assert,
+			Shallow:    true,
+		})
+		return found, tr
 	}
 	for _, b := range fn.Blocks {
 		for _, in := range b.Instrs {
@@ -776,17 +1167,43 @@ func UnguardedSinks(fn *ssa.Function, sink func(ssa.Instruction) bool, guards ma
 				continue
 			}
 			nSinks++
-			target := in
-			found, tr, _ := Reach(Query{
-				From:       []Point{Entry(fn)},
-				Target:     func(x ssa.Instruction) bool { return x == target },
-				AvoidEdges: guards,
-			})
-			if found {
+			if found, tr := reachable(in); found {
 				off = append(off, Offender{Instr: in, Trace: tr})
 			}
 		}
 	}
+	if !anon {
+		return off, nSinks
+	}
+	match := guardMatch[reflect.ValueOf(guards).Pointer()]
+	for a, mcs := range closuresOf(fn) {
+		var inner map[Edge]bool
+		if match != nil {
+			inner, _ = condEdges(a, match, 2)
+		}
+		for _, b := range a.Blocks {
+			for _, in := range b.Instrs {
+				if _, isRet := in.(*ssa.Return); isRet || !sink(in) {
+					continue // a return of the literal is not a return of fn
+				}
+				nSinks++
+				target := in
+				if found, _, _ := Reach(Query{From: []Point{Entry(a)}, Target: func(x ssa.Instruction) bool { return x == target }, AvoidEdges: inner}); !found {
+					continue // guarded inside the literal
+				}
+				done := false
+				for _, mc := range mcs {
+					for _, pt := range ClosureUsePoints(mc) {
+						if found, tr := reachable(pt); found && !done {
+							off = append(off, Offender{Instr: in, Trace: tr})
+							done = true
+						}
+					}
+				}
+			}
+		}
+	}
+	sort.SliceStable(off, func(i, j int) bool { return off[i].Instr.Pos() < off[j].Instr.Pos() })
 	return off, nSinks
 }
 
@@ -985,6 +1402,12 @@ func soleArgument(prm *ssa.Parameter) ssa.Value {
 // the function that contains them), the number of matched guards and the
 // number of sinks seen.
 func GuardedDeep(fn *ssa.Function, match func(a Atom) (bool, bool), sink func(ssa.Instruction) bool, depth int) (off []Offender, nGuards, nSinks int) {
+	return guardedDeep(fn, match, sink, depth, nil, false)
+}
+
+// guardedDeep: with newOnly the only helpers entered are the functions the
+// inventory does not list (Transparent), in any package and at no cost of depth.
+func guardedDeep(fn *ssa.Function, match func(a Atom) (bool, bool), sink func(ssa.Instruction) bool, depth int, top map[Edge]bool, newOnly bool) (off []Offender, nGuards, nSinks int) {
 	memo := map[*ssa.Function][]Offender{}
 	busy := map[*ssa.Function]bool{}
 	var eval func(f *ssa.Function, d int) []Offender
@@ -997,37 +1420,98 @@ func GuardedDeep(fn *ssa.Function, match func(a Atom) (bool, bool), sink func(ss
 		}
 		busy[f] = true
 		defer func() { busy[f] = false; memo[f] = res }()
-		g, n := CondEdges(f, match)
-		nGuards += n
+		var g map[Edge]bool
+		if f == fn && top != nil {
+			g = top
+		} else {
+			var n int
+			g, n = condEdges(f, match, 2)
+			nGuards += n
+			if g == nil {
+				g = map[Edge]bool{}
+			}
+			guardMatch[reflect.ValueOf(g).Pointer()] = match
+		}
 		var out []Offender
-		o, ns := UnguardedSinks(f, sink, g)
+		sk := sink
+		if f != fn {
+			// a return of a helper is not a return of fn
+			sk = func(in ssa.Instruction) bool { _, isRet := in.(*ssa.Return); return !isRet && sink(in) }
+		}
+		o, ns := unguardedSinks(f, sk, g, false)
 		nSinks += ns
 		out = append(out, o...)
-		if d <= 0 {
-			return out
+		assert := AssertCall(match)
+		reachable := func(target ssa.Instruction) bool {
+			found, _, _ := Reach(Query{From: []Point{Entry(f)}, Target: func(x ssa.Instruction) bool { return x == target }, AvoidEdges: g, Avoid: assert, Shallow: true})
+			return found
 		}
 		for _, b := range f.Blocks {
 			for _, in := range b.Instrs {
+				if mc, isMC := in.(*ssa.MakeClosure); isMC {
+					// a function literal: its unguarded sinks are located where the literal is used
+					h, _ := mc.Fn.(*ssa.Function)
+					inner := eval(h, d)
+					if len(inner) == 0 {
+						continue
+					}
+					for _, pt := range ClosureUsePoints(mc) {
+						if reachable(pt) {
+							out = append(out, inner...)
+							break
+						}
+					}
+					continue
+				}
 				ci, ok := in.(ssa.CallInstruction)
 				if !ok {
 					continue
 				}
 				h := Impl(ci.Common().StaticCallee())
-				if h == nil || h == f || h.Pkg != f.Pkg || !InModule(h) {
-					if mc, isMC := ci.Common().Value.(*ssa.MakeClosure); isMC {
-						h, _ = mc.Fn.(*ssa.Function)
+				if h == nil || h == f || !InModule(h) {
+					continue
+				}
+				cost := 1
+				if Transparent(h) {
+					cost = 0
+				} else if newOnly || h.Pkg != f.Pkg {
+					continue
+				}
+				if d-cost < 0 {
+					continue
+				}
+				if v, isVal := in.(ssa.Value); isVal {
+					// the helper that computes the guard is not guarded by it
+					vals := []ssa.Value{v}
+					if refs := v.Referrers(); refs != nil {
+						for _, u := range *refs {
+							if e, ok := u.(*ssa.Extract); ok {
+								vals = append(vals, e)
+							}
+						}
 					}
-					if h == nil || h == f || h.Pkg != f.Pkg {
+					isGuard := false
+					for _, x := range vals {
+						if _, isTuple := x.Type().(*types.Tuple); isTuple {
+							continue
+						}
+						if m, _ := match(Decompose(x)); m {
+							isGuard = true
+						}
+						if m, _ := match(Atom{Base: x, Op: token.NEQ, Other: ssa.NewConst(nil, x.Type())}); m {
+							isGuard = true
+						}
+					}
+					if isGuard {
 						continue
 					}
 				}
-				inner := eval(h, d-1)
+				inner := eval(h, d-cost)
 				if len(inner) == 0 {
 					continue
 				}
 				// the helper has sinks it does not guard itself: is this call guarded here?
-				target := in
-				if found, _, _ := Reach(Query{From: []Point{Entry(f)}, Target: func(x ssa.Instruction) bool { return x == target }, AvoidEdges: g}); found {
+				if reachable(in) {
 					out = append(out, inner...)
 				}
 			}
